@@ -60,6 +60,7 @@ fn run_child(su: &Setup, pts: &[Vec<f64>]) -> Option<String> {
 fn case(item: u64, rng: &mut Rng, acc: &mut Acc, quick: bool, light: bool) {
     let mut o = GraphOpts::std(if quick { 7 } else { 8 });
     o.max_loops = 4;
+    o.big_loop_prob = 0.05;
     let Some(su) = Setup::random(rng, &o, 3, 8) else {
         acc.count("setup_failed");
         return;
